@@ -64,6 +64,8 @@ type c06Spec struct {
 	Ops   []int     `json:"ops"`   // operator per internal node, preorder
 	Val   int       `json:"val"`
 	Decos []c06Deco `json:"decos,omitempty"`
+	Min   string    `json:"minimal,omitempty"`
+	Full  string    `json:"full,omitempty"`
 }
 
 var c06DecoKinds = []string{"!", "-", "+", "paren", "is", "mem", "idx", "call"}
@@ -283,7 +285,12 @@ func init() {
 								s := base
 								s.Val = val
 								s.Decos = decos
-								c.Do(func() any { return s }, func() *fw.Violation { return c06Check(c, s) })
+								c.Do(func() any {
+									if e, ok := c06Tree(s); ok {
+										s.Min, s.Full = ExprSource(e, Style{}), ExprSource(e, Style{Full: true})
+									}
+									return s
+								}, func() *fw.Violation { return c06Check(c, s) })
 							}
 							if len(decos) == pl.decos {
 								return
